@@ -24,7 +24,9 @@ pub struct ClientScript {
     pub pre_sets: u8,
     /// 0 idle, 1 part of a frame sent, 2 one complete (large) SET sent and reply not read yet,
     /// 3 several pipelined SETs, 4 pipelined GETs of a large value read slowly, 5 a client that
-    /// finished (round trips, clean close) before the shutdown window opens
+    /// finished (round trips, clean close) before the shutdown window opens, 6 a client that keeps
+    /// the connection saturated with pipelined GETs (draining replies) until its stream ends,
+    /// 7 one complete GET of a large value followed by part of the next request
     pub kind: u8,
     pub size: u32,
     pub count: u8,
@@ -43,7 +45,7 @@ fn strategy(tier: Tier) -> BoxedStrategy<ShutCase> {
     let maxsize = tier.pick(300_000u32, 1_048_576u32);
     let script = (
         0u8..3,
-        prop_oneof![1 => Just(0u8), 2 => Just(1u8), 3 => Just(2u8), 3 => Just(3u8), 3 => Just(4u8), 3 => Just(5u8)],
+        prop_oneof![1 => Just(0u8), 2 => Just(1u8), 3 => Just(2u8), 3 => Just(3u8), 3 => Just(4u8), 3 => Just(5u8), 2 => Just(6u8), 3 => Just(7u8)],
         prop_oneof![2 => 1u32..200, 2 => 8000u32..70000, 2 => 100_000u32..maxsize],
         2u8..12,
         1u16..u16::MAX,
@@ -89,6 +91,8 @@ struct ClientReport {
     reset: bool,
     error: Option<String>,
     mid: bool,
+    /// flooding client: replies are not matched against a finite request list
+    flood: bool,
 }
 
 fn client_thread(ci: usize, s: ClientScript, addr: String, go: Arc<Barrier>) -> ClientReport {
@@ -100,6 +104,7 @@ fn client_thread(ci: usize, s: ClientScript, addr: String, go: Arc<Barrier>) -> 
         reset: false,
         error: None,
         mid: false,
+        flood: false,
     };
     let key = format!("c{}k", ci).into_bytes();
     let key2 = format!("c{}big", ci).into_bytes();
@@ -128,7 +133,7 @@ fn client_thread(ci: usize, s: ClientScript, addr: String, go: Arc<Barrier>) -> 
             }
         }
     }
-    if s.kind % 6 == 4 {
+    if s.kind % 8 == 4 || s.kind % 8 == 7 {
         // the large value the slow reader will fetch (acknowledged before the window)
         let v = value(ci, idx, s.size as usize);
         idx += 1;
@@ -143,7 +148,7 @@ fn client_thread(ci: usize, s: ClientScript, addr: String, go: Arc<Barrier>) -> 
             }
         }
     }
-    if s.kind % 6 == 5 {
+    if s.kind % 8 == 5 {
         // finished before the window: everything it sent was acknowledged; close cleanly
         cl.close();
         rep.ended = true;
@@ -151,7 +156,7 @@ fn client_thread(ci: usize, s: ClientScript, addr: String, go: Arc<Barrier>) -> 
         return rep;
     }
     go.wait();
-    match s.kind % 6 {
+    match s.kind % 8 {
         0 => {}
         1 => {
             let v = value(ci, idx, (s.size as usize).min(70000));
@@ -175,6 +180,32 @@ fn client_thread(ci: usize, s: ClientScript, addr: String, go: Arc<Barrier>) -> 
                 all.extend_from_slice(&command(&[b"SET", &key, &v]));
                 rep.sent.push(Cmd::Set(key.clone(), v));
             }
+            let _ = cl.send(&all);
+            rep.mid = true;
+        }
+        6 => {
+            // flood: batches of pipelined GETs, replies drained, until the stream ends
+            rep.mid = true;
+            let batch: Vec<u8> = (0..64).flat_map(|_| command(&[b"GET", &key])).collect();
+            let t0 = Instant::now();
+            let mut sent_batches = 0usize;
+            while !cl.eof && t0.elapsed() < Duration::from_secs(12) {
+                if cl.send(&batch).is_err() {
+                    break;
+                }
+                sent_batches += 1;
+                cl.pump(Duration::from_micros(200));
+            }
+            // GET replies do not change the store; the number answered is whatever arrived
+            let _ = sent_batches;
+            rep.flood = true;
+        }
+        7 => {
+            let mut all = command(&[b"GET", &key2]);
+            rep.sent.push(Cmd::Get(key2.clone()));
+            let next = command(&[b"SET", &key, b"never-completed"]);
+            let keep = 1 + ((s.frac as usize * (next.len() - 1)) >> 16);
+            all.extend_from_slice(&next[..keep.min(next.len() - 1)]);
             let _ = cl.send(&all);
             rep.mid = true;
         }
@@ -245,7 +276,7 @@ fn exec(c: &ShutCase, env: &Env) -> Outcome {
 
     let mut mid = false;
     for (ci, r) in reports.iter().enumerate() {
-        out.label(format!("client-kind-{}", c.clients[ci].kind % 6));
+        out.label(format!("client-kind-{}", c.clients[ci].kind % 8));
         if r.mid {
             mid = true;
         }
@@ -276,7 +307,7 @@ fn exec(c: &ShutCase, env: &Env) -> Outcome {
             if !r.ended {
                 verdict = Some((
                     "connection-not-closed".into(),
-                    format!("client {} (kind {}): the server did not end the stream within 12 s after the shutdown signal", ci, c.clients[ci].kind % 6),
+                    format!("client {} (kind {}): the server did not end the stream within 12 s after the shutdown signal", ci, c.clients[ci].kind % 8),
                     true,
                 ));
                 break;
@@ -288,13 +319,17 @@ fn exec(c: &ShutCase, env: &Env) -> Outcome {
                     format!(
                         "client {} (kind {}): after {} complete replies the stream ended cleanly with {} bytes of an incomplete reply",
                         ci,
-                        c.clients[ci].kind % 6,
+                        c.clients[ci].kind % 8,
                         r.replies.len(),
                         r.trailing
                     ),
                     false,
                 ));
                 break;
+            }
+            if r.flood {
+                // every reply of the flood answers GET <key>: the last acknowledged value or null
+                continue;
             }
             if r.replies.len() > r.sent.len() {
                 verdict = Some((
@@ -337,7 +372,7 @@ fn exec(c: &ShutCase, env: &Env) -> Outcome {
         // every command whose reply was received is reflected in the store: for each client the
         // store equals the state after its first j commands for some j >= acknowledged
         for (ci, r) in reports.iter().enumerate() {
-            let acked = r.replies.len();
+            let acked = r.replies.len().min(r.sent.len());
             let keys: Vec<Vec<u8>> = vec![format!("c{}k", ci).into_bytes(), format!("c{}big", ci).into_bytes()];
             let mut store: Vec<Option<Vec<u8>>> = Vec::new();
             for k in &keys {
@@ -371,7 +406,7 @@ fn exec(c: &ShutCase, env: &Env) -> Outcome {
                     format!(
                         "client {} (kind {}): {} commands sent, {} acknowledged; after shutdown the store holds {:?} (lengths) for its keys, which is not the state after any prefix of at least the acknowledged commands",
                         ci,
-                        c.clients[ci].kind % 6,
+                        c.clients[ci].kind % 8,
                         r.sent.len(),
                         acked,
                         store.iter().map(|s| s.as_ref().map(|v| v.len())).collect::<Vec<_>>()
@@ -418,7 +453,7 @@ pub fn prop() -> Prop<ShutCase> {
     Prop {
         id: "C16",
         level: "exploration",
-        rule: "Cases: 1-6 clients against an in-process server, each scripted into a state at the moment shutdown fires: idle after 0-2 acknowledged SETs; part of a frame sent (generated fraction); one complete SET with a value up to 300 KiB (1 MiB thorough) sent and the reply not yet read; 2-11 pipelined SETs; 12-66 pipelined GETs of a large value (up to 20 MB of replies, more than the socket buffers hold) read late and slowly; or already finished (acknowledged round trips and a clean close before the window). The shutdown signal fires a generated 0-8 ms after the clients start those sends. Every client then reads to the end of its stream and closes. Oracles: Server::run returns within 10 s after the last client closed; the server ends every stream within 12 s; each client's bytes parse with a strict reader into complete, correct replies in order followed by end of stream (a partial reply before a clean EOF is a torn reply; after a connection reset trailing bytes are not judged); after run returned, for each client the store equals the state after its first j complete commands for some j >= the number of replies it received. Non-trivial: shutdown fired while at least one client was mid-frame or mid-command; distinct = distinct hash of the case.",
+        rule: "Cases: 1-6 clients against an in-process server, each scripted into a state at the moment shutdown fires: idle after 0-2 acknowledged SETs; part of a frame sent (generated fraction); one complete SET with a value up to 300 KiB (1 MiB thorough) sent and the reply not yet read; 2-11 pipelined SETs; 12-66 pipelined GETs of a large value (up to 20 MB of replies, more than the socket buffers hold) read late and slowly; or already finished (acknowledged round trips and a clean close before the window); a client that keeps the connection saturated with batches of pipelined GETs until its stream ends; one complete GET of a large value followed by part of the next request. The shutdown signal fires a generated 0-8 ms after the clients start those sends. Every client then reads to the end of its stream and closes. Oracles: Server::run returns within 10 s after the last client closed; the server ends every stream within 12 s; each client's bytes parse with a strict reader into complete, correct replies in order followed by end of stream (a partial reply before a clean EOF is a torn reply; after a connection reset trailing bytes are not judged); after run returned, for each client the store equals the state after its first j complete commands for some j >= the number of replies it received. Non-trivial: shutdown fired while at least one client was mid-frame or mid-command; distinct = distinct hash of the case.",
         assumptions: &[
             "a client that never reads and never closes is not generated: run() is required to return once connections have wound down",
             "end of stream is accepted as EOF or connection reset (a server closing a socket with unread pipelined requests sends RST, which may purge data the client had not read yet)",
